@@ -11,6 +11,9 @@
     pfloat S            parseFloat(s)
     lit    S            the program text S when it is exactly one numeric literal (else `other`)
     istr   I            String(i) for an int64-kinded number Value i (decimal)
+    litstr S            String(<numeric literal S>) (else `other`)
+    pintstr S A         String(parseInt(s, a))
+    nthis  M K          Number.prototype.M.call(<a this value of kind K>): `ok` or throw:TypeError
     rt     X L          Number(String(x))
 -/
 import OttoVerif.Base.Proto
@@ -35,6 +38,17 @@ def resOut : Res → String
 def optOut : Option FV → String
   | some x => f64Out x
   | none => "other"
+
+def optStr : Option Str → String
+  | some x => "s:" ++ bytesOut x
+  | none => "other"
+
+def thisOut (ok : Bool) : String := if ok then "ok" else "throw:TypeError"
+
+def kind? : String → Option ThisKind
+  | "undef" => some .undef | "null" => some .null | "bool" => some .bool | "str" => some .str | "num" => some .num
+  | "obj" => some .obj | "arr" => some .arr | "fn" => some .fn | "date" => some .date | "numObj" => some .numObj
+  | "strObj" => some .strObj | "boolObj" => some .boolObj | "protoChild" => some .protoChild | _ => none
 
 def devOut (ds : List String) : String :=
   if ds.isEmpty then "-" else ",".intercalate ds
@@ -78,6 +92,15 @@ def handle (ws : List String) : String :=
     | none => "bad-op"
   | ["lit", s] => match str? s with
     | some s => reply (optOut (literalValue s)) (optOut (Spec.literalValue s)) []
+    | none => "bad-op"
+  | ["litstr", s] => match str? s with
+    | some s => reply (optStr (literalString L s)) (optStr (Spec.literalString s)) []
+    | none => "bad-op"
+  | ["pintstr", s, a] => match str? s, arg? a with
+    | some s, some a => reply (resOut (.str (parseIntString L s a))) (resOut (.str (Spec.parseIntString s a))) (Spec.Dev.pint a)
+    | _, _ => "bad-op"
+  | ["nthis", _m, k] => match kind? k with
+    | some k => reply (thisOut (numberMethodThis k)) (thisOut (Spec.numberMethodThis k)) []
     | none => "bad-op"
   | ["istr", i] => match int? i with
     | some i => reply (resOut (.str (formatInt i 10))) (resOut (.str (Spec.toStringNum (ofInt i)))) (Spec.Dev.istr i)
